@@ -193,8 +193,8 @@ func checkClaims(cl map[string]any, sub, iss string, ttl time.Duration, t0, t1 i
 	if s, ok := cl["iss"].(string); !ok || s != iss {
 		bad("iss", "iss=%v (%T), configured signer name is %q", cl["iss"], cl["iss"], iss)
 	}
-	if s, ok := cl["jti"].(string); !ok || s == "" {
-		bad("jti", "jti=%v (%T), expected a non-empty string", cl["jti"], cl["jti"])
+	if s, ok := cl["jti"].(string); !ok || len(s) != 36 || s[8] != '-' || s[13] != '-' || s[18] != '-' || s[23] != '-' {
+		bad("jti", "jti=%v (%T), expected a generated UUID", cl["jti"], cl["jti"])
 	}
 	iat, ok := claimInt(cl["iat"])
 	if !ok {
